@@ -678,6 +678,8 @@ class HyASTCompiler:
                 fcomponent, f"Invalid conversion character {fcomponent.conversion!r}"
             )
         conversion = ord(fcomponent.conversion) if fcomponent.conversion else -1
+        if not fcomponent:
+            raise self._syntax_error(fcomponent, "empty replacement field")
         root, *rest = fcomponent
         value = self.compile(root)
         elts, ret, _ = self._compile_collect(rest)
